@@ -317,7 +317,9 @@ Step(t) == (t \in Mutators /\ MStep(t)) \/ HStep(t)
 
 AllDone == \A t \in Threads : Top(t).kind = "idle" /\ (t \in Mutators => pos[t] > Len(Script[t]))
 
-Next == (\E t \in Threads : Step(t) \/ \E s \in Sigs : Deliver(t, s)) \/ (AllDone /\ UNCHANGED vars)
+Next == \/ \E m \in Mutators : MStep(m)
+        \/ \E t \in Threads : HStep(t) \/ \E s \in Sigs : Deliver(t, s)
+        \/ (AllDone /\ UNCHANGED vars)
 
 Spec == Init /\ [][Next]_vars
 FairSpec == Spec /\ \A t \in Threads : WF_vars(Step(t))
